@@ -122,9 +122,11 @@ impl RuleState {
         }
         self.pending = keep;
         due.sort_by_key(|e| (e.0, e.1));
-        for (_, _q, dir, seg) in due {
+        for (at, _q, dir, seg) in due {
+            self.diag.round = at;
             self.diag.deliver(dir, &seg, _q);
         }
+        self.diag.round = now_ms;
     }
 }
 
@@ -242,6 +244,7 @@ pub fn run(d: &E2e) -> E2eOut {
                     let mut guard = st.borrow_mut();
                     let rs = &mut *guard;
                     let now_ms = t0.elapsed().as_millis() as u64;
+                    rs.diag.round = now_ms;
                     rs.flush(now_ms);
                     let dir = if p.src == client_ip { Dir::C2S } else { Dir::S2C };
                     let seg = match &p.payload {
